@@ -168,7 +168,26 @@ class _Subst(ast.NodeTransformer):
         return n
 
     def visit_FunctionDef(self, n):
-        return n  # do not rewrite nested definitions
+        # a nested definition (closure): its free variables are those of the enclosing callee and are rewritten like them; names
+        # it binds itself (parameters, its own assignments) shadow the mapping
+        bound = {a.arg for a in n.args.args + n.args.posonlyargs + n.args.kwonlyargs}
+        if n.args.vararg:
+            bound.add(n.args.vararg.arg)
+        if n.args.kwarg:
+            bound.add(n.args.kwarg.arg)
+        body = n.body if isinstance(n.body, list) else [n.body]
+        for b in body:
+            for x in ast.walk(b):
+                if isinstance(x, ast.Name) and isinstance(x.ctx, (ast.Store, ast.Del)):
+                    bound.add(x.id)
+        sub = _Subst({k: v for k, v in self.mapping.items() if k not in bound}, {k: v for k, v in self.rename.items() if k not in bound})
+        if isinstance(n.body, list):
+            n.body = [sub.visit(b) for b in n.body]
+        else:
+            n.body = sub.visit(n.body)
+        if isinstance(n, ast.FunctionDef) and n.name in self.rename:
+            n.name = self.rename[n.name]
+        return n
 
     visit_Lambda = visit_FunctionDef
 
@@ -431,6 +450,7 @@ def expand(prog, f, depth=2, local_only=False, skip_names=()):
                                 body = _replace_returns(body, lambda v, s: [_loc(ast.Return(value=v), s)])
                         if body is not None:
                             sub_owner = as_receiver(callee, owner, call) if isinstance(callee, FuncInfo) else owner
+                            body = _prune_const_ifs(body)   # arguments that are constants decide the callee's branches
                             out.extend(walk_block(body, sub_owner, level + 1, local_defs))
                             done = True
             if done:
@@ -454,6 +474,39 @@ def expand(prog, f, depth=2, local_only=False, skip_names=()):
     _inline_captures(root)
     ast.fix_missing_locations(root)
     return root
+
+
+def _prune_const_ifs(stmts):
+    """`if <constant>:` keeps the arm that is taken (everywhere below, nested definitions included): a helper specialised by a
+    constant argument (`displacing=True`) reads like the code it stands for."""
+    class P(ast.NodeTransformer):
+        def _blk(self, b):
+            out = []
+            for st in b:
+                r = self.visit(st)
+                if isinstance(r, list):
+                    out.extend(r)
+                elif r is not None:
+                    out.append(r)
+            return out
+
+        def visit_If(self, n):
+            n.body, n.orelse = self._blk(n.body), self._blk(n.orelse)
+            if isinstance(n.test, ast.Constant):
+                return (n.body if n.test.value else n.orelse) or []
+            if isinstance(n.test, ast.UnaryOp) and isinstance(n.test.op, ast.Not) and isinstance(n.test.operand, ast.Constant):
+                return (n.orelse if n.test.operand.value else n.body) or []
+            return n
+
+        def generic_visit(self, node):
+            for fld in ("body", "orelse", "finalbody"):
+                b = getattr(node, fld, None)
+                if isinstance(b, list) and b and isinstance(b[0], ast.stmt):
+                    setattr(node, fld, self._blk(b) or ([ast.Pass()] if fld == "body" else []))
+            for h in getattr(node, "handlers", []) or []:
+                h.body = self._blk(h.body) or [ast.Pass()]
+            return node
+    return P()._blk(list(stmts))
 
 
 def _hoist_helper_calls(prog, owner, stmts, local_defs, counter, local_only, top, skip_names=()):
